@@ -41,7 +41,7 @@ def run(tier, rep, replay=None):
 
 
 MANIFEST = {
- "text": "SigVerdict.tla lists the 20 signature variants circl offers (sign.Scheme wrappers, Ed25519 pure/ctx/ph, Ed448 pure/ph, ML-DSA package APIs, BLS in both key groups) with their context/determinism/scalar/hybrid attributes and 21 alteration sites, and decides verification symbolically (accept iff every bound component is honest and the encoding canonical); BlsAgg.tla models aggregation with symbolic discrete logs (permutation accepted; duplicated/missing/other-message rejected), both model-checked. For every applicable (variant, site) the driver signs with 2 seeded keys and applies EVERY concrete alteration of the site (every single-bit flip of signatures up to 1000 bytes and a stride-5 sweep of ML-DSA/Dilithium ones in quick, every truncation length, appended bytes, S+kL, swapped hybrid halves, public-key bit flips and malformed key bytes, contexts 0/1/17/254/255/256/1000, sibling-variant verification), under recover; TLC judges the counts.",
+ "text": "SigVerdict.tla lists the 20 signature variants circl offers (sign.Scheme wrappers, Ed25519 pure/ctx/ph, Ed448 pure/ph, ML-DSA package APIs, BLS in both key groups) with their context/determinism/scalar/hybrid attributes and 21 alteration sites, and decides verification symbolically (accept iff every bound component is honest and the encoding canonical); BlsAgg.tla models aggregation with symbolic discrete logs (permutation accepted; duplicated/missing/other-message rejected), both model-checked. For every applicable (variant, site) the driver signs with 2 seeded keys and applies EVERY concrete alteration of the site (every single-bit flip of signatures up to 1000 bytes and a stride-5 sweep of ML-DSA/Dilithium ones in quick, every truncation length, appended bytes, S+kL, swapped hybrid halves, public-key bit flips and malformed key bytes, contexts 0/1/17/254/255/256/1000, sibling-variant verification), under recover; TLC judges the counts. BlsAgg.tla carries the basic scheme's distinct-message rule; the scenario rogue-key (x*G - pk_victim over {m, m}) is replayed on real keys.",
  "note": "Quick strides ML-DSA/Dilithium signature bit flips (every 5th bit, offset varies by key) and public-key flips (2048 per key); thorough does every bit. Message/key seeds are seeded random.",
  "technique": "TLC model check of symbolic verification decision + BLS aggregation algebra; TLC-emitted (variant, site) table replayed exhaustively per site on real code; TLC trace judgement",
 }
